@@ -60,8 +60,9 @@ func classesOf(c wcase, h history) []string {
 		cl = append(cl, "no_empty")
 	}
 	total := 0
-	for _, s := range c.Sizes {
-		total += s * (c.SeqLen + 40)
+	bb := c.batchBytes()
+	for k, s := range c.Sizes {
+		total += bb[k] + s*40
 	}
 	if total > 4096 {
 		cl = append(cl, "output>4KiB")
@@ -69,14 +70,17 @@ func classesOf(c wcase, h history) []string {
 	if len(c.Sizes) > 64 {
 		cl = append(cl, "more_than_64_batches")
 	}
-	for _, n := range c.Sizes {
-		if n*c.SeqLen >= 65536 {
+	for _, b := range bb {
+		if b >= 65536 {
 			cl = append(cl, "chunk>=64KiB")
 			break
 		}
 	}
 	if c.Writer == "csv" && c.CSVAuto {
 		cl = append(cl, "csv_auto_columns")
+	}
+	if c.Wfile {
+		cl = append(cl, fmt.Sprintf("chunk_through_CompressStream:gzip:%v", c.Gzip))
 	}
 	return cl
 }
@@ -278,6 +282,10 @@ func genControlled(t *rapid.T) wcase {
 		c.CSVAuto = rapid.Bool().Draw(t, "csvauto")
 	case "sequence", "json":
 		c.Qual = rapid.Bool().Draw(t, "qual")
+	case "chunk":
+		// the chunk writer in front of the real stream wrapper, as WriteFasta uses it
+		c.Wfile = rapid.Bool().Draw(t, "wfile")
+		c.Gzip = c.Wfile && rapid.Bool().Draw(t, "gzip_wfile")
 	}
 	return c
 }
